@@ -27,7 +27,7 @@ META = dict(
                  "implementation bugs, >2GiB pickles and pkl5 are out of reach",
                  "mpi4py.MPI.Intracomm is stubbed for NIFTy's isinstance sanity check"],
     need=["worlds_run", "rank_results_compared", "router_logs_checked", "p2p_messages", "collectives"],
-    quick=dict(cases=36, workers=8, budget_s=80),
+    quick=dict(cases=24, workers=12, budget_s=80),
     thorough=dict(cases=400, workers=16, budget_s=1200),
     design_ref="DESIGN.md §5 C22",
     level_text=("exploration over task counts 1..6 and option combinations with bit-identity oracle on every rank; "
